@@ -30,6 +30,10 @@ fn to_cps(s: &str) -> Val {
 struct Cap {
     ev: Vec<Val>,
     cur: Vec<u8>,
+    /// > 0: every `intr`-th write call fails with ErrorKind::Interrupted (nothing accepted; the
+    /// caller's write_all retries) - a signal arriving during the write must not show in the output
+    intr: usize,
+    calls: usize,
 }
 impl Cap {
     fn flush_text(&mut self) {
@@ -44,6 +48,10 @@ impl Cap {
 }
 impl io::Write for Cap {
     fn write(&mut self, buf: &[u8]) -> io::Result<usize> {
+        self.calls += 1;
+        if self.intr > 0 && self.calls % self.intr == 0 {
+            return Err(io::Error::new(io::ErrorKind::Interrupted, "EINTR"));
+        }
         self.cur.extend_from_slice(buf);
         Ok(buf.len())
     }
@@ -136,7 +144,7 @@ impl std::fmt::Display for Reentrant<'_> {
         }
         let ok = std::panic::catch_unwind(|| {
             let enc = PatternEncoder::new("<{m}|{m:>9}|{m:.4}>");
-            let mut cap = Cap { ev: vec![], cur: vec![] };
+            let mut cap = Cap { ev: vec![], cur: vec![], intr: 0, calls: 0 };
             let n = 41;
             let r = enc.encode(
                 &mut cap,
@@ -213,13 +221,16 @@ fn body(case: &Val) -> Val {
             (0, String::new(), String::new())
         }
     };
+    // every other case of a process writes into a sink whose 2nd, 4th, ... write call is interrupted
+    static CASE_NO: std::sync::atomic::AtomicUsize = std::sync::atomic::AtomicUsize::new(0);
+    let intr = if CASE_NO.fetch_add(1, std::sync::atomic::Ordering::SeqCst) % 2 == 1 { 2 } else { 0 };
     let attempt = || -> Val {
         let res = std::panic::catch_unwind(std::panic::AssertUnwindSafe(|| {
             let enc = PatternEncoder::new(&pattern);
             if mode == 2 {
                 return Val::text("ok");
             }
-            let mut cap = Cap { ev: vec![], cur: vec![] };
+            let mut cap = Cap { ev: vec![], cur: vec![], intr, calls: 0 };
             let r = enc.encode(
                 &mut cap,
                 &log::Record::builder()
@@ -288,7 +299,7 @@ fn body(case: &Val) -> Val {
 fn forked(case: &Val) -> Val {
     {
         let warm = PatternEncoder::new("{P} {pid} {I} {thread_id} {i} {tid} {T} {d(%Y)}");
-        let mut cap = Cap { ev: vec![], cur: vec![] };
+        let mut cap = Cap { ev: vec![], cur: vec![], intr: 0, calls: 0 };
         let _ = warm.encode(
             &mut cap,
             &log::Record::builder().level(log::Level::Info).args(format_args!("warm")).build(),
